@@ -22,8 +22,9 @@ type Explorer struct {
 	Deadline time.Time
 	MaxExecs int
 
-	Stats Stats
-	stop  bool
+	Stats  Stats
+	stop   bool
+	warmed bool
 }
 
 // Stats describe what a search covered.
@@ -71,6 +72,19 @@ func (e *Explorer) run(prefix []Choice) *Result {
 	return r
 }
 
+// warm runs the default execution once and throws it away: whatever the code under test builds lazily and keeps for
+// the life of the process (package-level tables and caches) exists afterwards, so that the first execution that
+// counts meets the same scheduling points as its re-runs.
+func (e *Explorer) warm() {
+	if e.Embedded || e.warmed {
+		return
+	}
+	e.warmed = true
+	verifying = true
+	Run(nil, e.Body, RunOpts{MaxSteps: e.MaxSteps, Races: e.Races})
+	verifying = false
+}
+
 // Replay runs one choice sequence (with tracing) without searching.
 func (e *Explorer) Replay(prefix []Choice) *Result {
 	return Run(prefix, e.Body, RunOpts{MaxSteps: e.MaxSteps, Trace: true, Races: e.Races})
@@ -79,8 +93,12 @@ func (e *Explorer) Replay(prefix []Choice) *Result {
 // Root runs the default execution and returns it together with the prefixes of all subtrees that hang
 // off it within the bounds (the work items for sharding).
 func (e *Explorer) Root() (*Result, [][]Choice) {
+	e.warm()
 	r := e.run(nil)
 	e.verify(nil, r)
+	if r.Unverified {
+		return r, nil
+	}
 	if e.Check != nil && !e.Check(r) {
 		e.stop = true
 	}
@@ -151,6 +169,7 @@ func (e *Explorer) verify(prefix []Choice, r *Result) {
 	if r2.TraceHash != r.TraceHash || r2.Status != r.Status || len(r2.Points) != len(r.Points) {
 		e.Stats.Infra = append(e.Stats.Infra, fmt.Sprintf("non-deterministic replay: hash %x/%x status %s/%s points %d/%d infra=%q",
 			r.TraceHash, r2.TraceHash, r.Status, r2.Status, len(r.Points), len(r2.Points), r2.Infra))
+		r.Unverified = true
 	}
 }
 
@@ -184,6 +203,9 @@ func (e *Explorer) Subtree(prefix []Choice) {
 	}
 	r := e.run(prefix)
 	e.verify(prefix, r)
+	if r.Unverified {
+		return // recorded as an infrastructure error; an execution that does not replay is not judged
+	}
 	if e.Check != nil && !e.Check(r) {
 		e.stop = true
 		return
